@@ -184,6 +184,9 @@ FAULT_TREES = [
     {"qqa/aux/H.1.0.dsdl": "@sealed\n"},
     {"qqa/I.1.0.dsdl": "@assert false\n@sealed\n"},
     {"qqa/A.1.0.dsdl": "uint8 ok\n@print 1\n@sealed\n"},
+    # @print directives in a dependency and in a dependency of a dependency (every call has its own handler)
+    {"qqa/A.1.0.dsdl": "qql.C.1.0 c\n@print 5\n@sealed\n", "qql/C.1.0.dsdl": "uint8 v\n\n@print 6\n@sealed\n"},
+    {"qqa/B.1.0.dsdl": "@print 7\nqql.M.1.0 m\n@sealed\n", "qql/M.1.0.dsdl": "qql.C.1.0 c\n@print 8\n@sealed\n", "qql/C.1.0.dsdl": "@print 9\nuint8 v\n@sealed\n"},
 ]
 
 
